@@ -13,6 +13,8 @@
 #include <ascon/hash.h>
 #include <ascon/xof.h>
 #include <ascon/kdf.h>
+#include <ascon/pbkdf2.h>
+#include <ascon/hkdf.h>
 #include <ascon/prf.h>
 #include <ascon/hmac.h>
 #include <ascon/kmac.h>
@@ -239,6 +241,32 @@ int main(int argc, char **argv)
         if (memcmp(o1, o2, L)) { size_t i = 0; while (o1[i] == o2[i]) i++; hx_fail(kb, "one-shot output of %zu bytes differs from the customised XOF named KDF at byte %zu", L, i); }
         for (int i = 0; i < 64; i++) if (o1[L + i] != 0xC5) { hx_fail(kb, "wrote beyond the output"); break; }
         free(o1); free(o2);
+    } else if (!strcmp(what, "pbkdf2-salt") || !strcmp(what, "pbkdf2-pw")) {
+        /* secondary parameters of length L: the salt (arg 0: XOF-based PBKDF2, arg 1: the HMAC version) or the password; count 2, 40 output bytes, against RFC 8018 spelled with the
+         * library's incremental customised XOF / HMAC interfaces (checked in C03 / C04) */
+        int pw = !strcmp(what, "pbkdf2-pw"); const uint8_t *P = pw ? in : key, *S = pw ? key : in; size_t pl = pw ? L : 20, sl = pw ? 20 : L; uint8_t o[40], e[64];
+        if (arg) ascon_pbkdf2_hmac(o, 40, P, pl, S, sl, 2); else ascon_pbkdf2(o, 40, P, pl, S, sl, 2);
+        for (uint32_t blk = 1; blk <= 2; blk++) { uint8_t idx[4] = {0, 0, 0, (uint8_t)blk}, u1[32], u2[32];
+            if (arg) { ascon_hmac_state_t h; ascon_hmac_init(&h, P, pl); ascon_hmac_update(&h, S, sl); ascon_hmac_update(&h, idx, 4); ascon_hmac_finalize(&h, P, pl, u1);
+                       ascon_hmac_reinit(&h, P, pl); ascon_hmac_update(&h, u1, 32); ascon_hmac_finalize(&h, P, pl, u2); ascon_hmac_free(&h); }
+            else { ascon_xof_state_t x; ascon_xof_init_custom(&x, "PBKDF2", P, pl, 32); ascon_xof_absorb(&x, S, sl); ascon_xof_absorb(&x, idx, 4); ascon_xof_squeeze(&x, u1, 32); ascon_xof_free(&x);
+                   ascon_xof_init_custom(&x, "PBKDF2", P, pl, 32); ascon_xof_absorb(&x, u1, 32); ascon_xof_squeeze(&x, u2, 32); ascon_xof_free(&x); }
+            for (int i = 0; i < 32; i++) e[(blk - 1) * 32 + i] = u1[i] ^ u2[i]; }
+        if (memcmp(o, e, 40)) hx_fail(kb, "PBKDF2 (%s) with a %s of %zu bytes differs from RFC 8018 over the library's own PRF", arg ? "HMAC" : "XOF", pw ? "password" : "salt", L);
+    } else if (!strcmp(what, "hkdf-salt") || !strcmp(what, "hkdf-info")) {
+        /* HKDF with a salt or an info string of length L: one-shot against extract + expand in two calls and against RFC 5869 spelled with the incremental HMAC interface */
+        int inf = !strcmp(what, "hkdf-info"); const uint8_t *S = inf ? key : in, *I = inf ? in : nonce; size_t sl = inf ? 9 : L, il = inf ? L : 11; uint8_t o[48], o2[48], prk[32], t1[32], t2[32], one = 1, two = 2;
+        int r = arg ? ascon_hkdfa(o, 48, key, 20, S, sl, I, il) : ascon_hkdf(o, 48, key, 20, S, sl, I, il);
+        if (arg) { ascon_hkdfa_state_t st; ascon_hkdfa_extract(&st, key, 20, S, sl); ascon_hkdfa_expand(&st, I, il, o2, 17); ascon_hkdfa_expand(&st, I, il, o2 + 17, 31); ascon_hkdfa_free(&st);
+                   ascon_hmaca_state_t h; ascon_hmaca_init(&h, S, sl); ascon_hmaca_update(&h, key, 20); ascon_hmaca_finalize(&h, S, sl, prk);
+                   ascon_hmaca_reinit(&h, prk, 32); ascon_hmaca_update(&h, I, il); ascon_hmaca_update(&h, &one, 1); ascon_hmaca_finalize(&h, prk, 32, t1);
+                   ascon_hmaca_reinit(&h, prk, 32); ascon_hmaca_update(&h, t1, 32); ascon_hmaca_update(&h, I, il); ascon_hmaca_update(&h, &two, 1); ascon_hmaca_finalize(&h, prk, 32, t2); ascon_hmaca_free(&h); }
+        else { ascon_hkdf_state_t st; ascon_hkdf_extract(&st, key, 20, S, sl); ascon_hkdf_expand(&st, I, il, o2, 17); ascon_hkdf_expand(&st, I, il, o2 + 17, 31); ascon_hkdf_free(&st);
+               ascon_hmac_state_t h; ascon_hmac_init(&h, S, sl); ascon_hmac_update(&h, key, 20); ascon_hmac_finalize(&h, S, sl, prk);
+               ascon_hmac_reinit(&h, prk, 32); ascon_hmac_update(&h, I, il); ascon_hmac_update(&h, &one, 1); ascon_hmac_finalize(&h, prk, 32, t1);
+               ascon_hmac_reinit(&h, prk, 32); ascon_hmac_update(&h, t1, 32); ascon_hmac_update(&h, I, il); ascon_hmac_update(&h, &two, 1); ascon_hmac_finalize(&h, prk, 32, t2); ascon_hmac_free(&h); }
+        if (r != 0 || memcmp(o, o2, 48)) hx_fail(kb, "one-shot HKDF with a %s of %zu bytes returned %d or differs from extract + expand", inf ? "context string" : "salt", L, r);
+        if (memcmp(o, t1, 32) || memcmp(o + 32, t2, 16)) hx_fail(kb, "HKDF with a %s of %zu bytes differs from RFC 5869 over the library's own HMAC", inf ? "context string" : "salt", L);
     } else { fprintf(stderr, "unknown %s\n", what); return 2; }
     hx_stat("evaluations", 1); hx_stat("nontrivial", 1); hx_stat("huge_length_calls", 1);
     hx_sample("%s with a length of %zu bytes (2^32 + 40) against the streaming fast reference", argv[1], L);
